@@ -117,164 +117,240 @@ def param_names(fn: T.Any) -> T.Dict[str, str]:
     return out
 
 
-def build(fn: T.Any, body: T.List[ast.stmt], name: str, seed: T.Optional[T.Dict[str, ast.AST]] = None,
-          handlers: bool = False) -> T.Tuple[tables.Table, T.Dict[str, ast.AST]]:
-    """Ordered decision table of `body` (a statement list of `fn`); `seed` = reaching definitions of locals on entry
-    (already substituted).  Returns the table and the definitions on exit that all normally-completing rows agree on."""
-    params = param_names(fn)
-    rows: T.List[tables.Row] = []
-    exit_vals: T.Optional[T.Dict[str, ast.AST]] = None
-    for p in enumerate_paths(body, unroll=1, handlers=handlers):
-        defs: T.Dict[str, ast.AST] = dict(seed or {})
+class _Frame:
+    def __init__(self, locals_: T.Dict[str, ast.AST], params: T.Dict[str, str], depth: int):
+        self.locals = locals_
+        self.params = params
+        self.depth = depth
 
+
+class _State:
+    def __init__(self) -> None:
+        self.fields: T.Dict[str, ast.AST] = {}      # attribute chains written on the path -> value over entry values
+        self.conds: T.Dict[Atom, bool] = {}
+        self.written: T.Set[str] = set()
+        self.items: T.List[Item] = []
+        self.exprs: T.List[T.Tuple[ast.AST, ast.AST]] = []
+        self.ints: T.List[T.Tuple[ast.Call, ast.AST]] = []
+
+    def copy(self) -> '_State':
+        s = _State()
+        s.fields, s.conds, s.written = dict(self.fields), dict(self.conds), set(self.written)
+        s.items, s.exprs, s.ints = list(self.items), list(self.exprs), list(self.ints)
+        return s
+
+
+def _placeholder(text: str) -> ast.AST:
+    """An opaque value (valid identifier, so that atom texts stay parseable)."""
+    return ast.Name(id='_opaque_' + ''.join(ch if ch.isalnum() else '_' for ch in text), ctx=ast.Load())
+
+
+HelperResolver = T.Callable[[str], T.Optional[T.Any]]
+
+
+def build(fn: T.Any, body: T.List[ast.stmt], name: str, seed: T.Optional[T.Dict[str, ast.AST]] = None,
+          handlers: bool = False, helpers: T.Optional[HelperResolver] = None) -> T.Tuple[tables.Table, T.Dict[str, ast.AST]]:
+    """Ordered decision table of `body` (a statement list of `fn`); `seed` = reaching definitions of locals on entry
+    (already substituted).  `helpers(name)` resolves `self.<name>` to a method of the same class whose paths are spliced
+    into the row where it is called as a statement (`yield from self.h(...)` / `self.h(...)`), two levels deep.
+    Returns the table and the definitions on exit that all normally-completing rows agree on."""
+    rows: T.List[tables.Row] = []
+    exit_box: T.List[T.Optional[T.Dict[str, ast.AST]]] = [None]
+    hpaths: T.Dict[int, T.Any] = {}
+
+    def helper_call(v: ast.AST, want_gen: bool, depth: int) -> T.Optional[T.Tuple[T.Any, T.Dict[str, ast.AST]]]:
+        """(callee, {parameter: substituted operand}) when `v` is `self.h(...)` of a resolvable same-class helper."""
+        if helpers is None or depth >= 2 or not (isinstance(v, ast.Call) and isinstance(v.func, ast.Attribute)
+                                                 and isinstance(v.func.value, ast.Name) and v.func.value.id == 'self'):
+            return None
+        callee = helpers(v.func.attr)
+        if callee is None or callee.decorator_list:
+            return None
+        is_gen = any(isinstance(n, (ast.Yield, ast.YieldFrom)) for n in ast.walk(callee))
+        if is_gen != want_gen:
+            return None
+        ps = [a.arg for a in callee.args.posonlyargs + callee.args.args][1:]
+        if callee.args.vararg or callee.args.kwarg or callee.args.kwonlyargs or any(isinstance(a, ast.Starred) for a in v.args) or len(v.args) > len(ps):
+            return None
+        bound: T.Dict[str, ast.AST] = dict(zip(ps, v.args))
+        for k in v.keywords:
+            if k.arg is None or k.arg not in ps or k.arg in bound:
+                return None
+            bound[k.arg] = k.value
+        for pn, d in zip(ps[len(ps) - len(callee.args.defaults):], callee.args.defaults):
+            bound.setdefault(pn, d)
+        if set(bound) != set(ps):
+            return None
+        return callee, bound
+
+    def proc(events: T.List[T.Any], i: int, st: _State, fr: _Frame, done: T.Callable[[_State, _Frame], None]) -> None:
         def sub(e: ast.AST) -> ast.AST:
-            return _Sub(defs, params).visit(copy.deepcopy(e))
+            return _Sub({**st.fields, **fr.locals}, fr.params).visit(copy.deepcopy(e))
+
+        def setlocal(nm: str, v: ast.AST) -> None:
+            fr.locals[nm] = v if _inlinable(v) else _placeholder(f'{nm} after assignment')
 
         def bind_walrus(e: ast.AST) -> None:
             for n in ast.walk(e):
                 if isinstance(n, ast.NamedExpr) and isinstance(n.target, ast.Name):
-                    v = sub(n.value)
-                    if _inlinable(v):
-                        defs[n.target.id] = v
-                    else:
-                        defs.pop(n.target.id, None)
-        conds: T.Dict[Atom, bool] = {}
-        written: T.Set[str] = set()
-        items: T.List[Item] = []
-        exprs: T.List[T.Tuple[ast.AST, ast.AST]] = []
-        feasible = True
-        ints: T.List[T.Tuple[ast.Call, ast.AST]] = []
-        for ev in p.events:
+                    setlocal(n.target.id, sub(n.value))
+        while i < len(events):
+            ev = events[i]
+            i += 1
             node = ev.node
             if node is None:
                 continue
             if ev.kind in ('cond', 'stmt'):
                 for c in ast.walk(node):
                     if isinstance(c, ast.Call) and isinstance(c.func, ast.Name) and c.func.id == 'int' and len(c.args) == 1:
-                        ints.append((c, sub(c.args[0])))
+                        st.ints.append((c, sub(c.args[0])))
             if ev.kind == 'cond':
                 e = sub(node)
                 bind_walrus(node)
                 a, v = tables.canon(e, bool(ev.val))
                 if a.kind in ('cmp', 'is') and len(a.args) >= 2 and a.args[-1] == a.args[-2] and (a.kind == 'is' or a.args[0] == 'eq'):
                     if not v:       # x == x / x is x observed false: not a path
-                        feasible = False
-                        break
+                        return
                     continue
-                if a in conds and conds[a] != v:
-                    feasible = False
-                    break
-                conds[a] = v
-                items.append(Item(a, v, None, node))
-                exprs.append((node, e))
+                if a in st.conds and st.conds[a] != v:
+                    return
+                st.conds[a] = v
+                st.items.append(Item(a, v, None, node))
+                st.exprs.append((node, e))
             elif ev.kind == 'exc':
-                items.append(Item(None, True, Eff('exc', '', None, '', node), node))
+                st.items.append(Item(None, True, Eff('exc', '', None, '', node), node))
             elif ev.kind == 'stmt':
-                st = node
-                if isinstance(st, ast.Assign) and len(st.targets) == 1:
-                    v = sub(st.value)
-                    bind_walrus(st.value)
-                    t = st.targets[0]
-                    exprs.append((st, v))
+                s_ = node
+                if isinstance(s_, ast.Assign) and len(s_.targets) == 1:
+                    v = sub(s_.value)
+                    bind_walrus(s_.value)
+                    t = s_.targets[0]
+                    st.exprs.append((s_, v))
                     if isinstance(t, ast.Name):
-                        if _inlinable(v):
-                            defs[t.id] = v
+                        setlocal(t.id, v)
+                        st.items.append(Item(None, True, Eff('set', fr.params.get(t.id, t.id), v, '', s_), s_))
+                    elif isinstance(t, (ast.Tuple, ast.List)):
+                        names = [x.id if isinstance(x, ast.Name) else None for x in t.elts]
+                        if (isinstance(v, ast.Call) and isinstance(v.func, ast.Attribute) and v.func.attr == 'groups' and not v.args and not v.keywords
+                                and all(names)):
+                            # re.Match.groups() is (group(1), ..., group(n)): bind each target to its group
+                            for k, nm in enumerate(names):
+                                setlocal(T.cast(str, nm), ast.Call(func=ast.Attribute(value=copy.deepcopy(v.func.value), attr='group', ctx=ast.Load()),
+                                                                  args=[ast.Constant(value=k + 1)], keywords=[]))
+                            st.items.append(Item(None, True, Eff('unpack', str(len(names)), v, '', s_), s_))
+                        elif isinstance(v, (ast.Tuple, ast.List)) and len(v.elts) == len(t.elts) and all(names):
+                            for nm, x in zip(names, v.elts):
+                                setlocal(T.cast(str, nm), x)
                         else:
-                            defs.pop(t.id, None)
-                        items.append(Item(None, True, Eff('set', params.get(t.id, t.id), v, '', st), st))
-                    elif isinstance(t, ast.Tuple):
-                        for x in t.elts:
-                            if isinstance(x, ast.Name):
-                                defs[x.id] = ast.Name(id=f'<unpacked {x.id}>', ctx=ast.Load())
-                        items.append(Item(None, True, Eff('set', norm(sub(t)), v, '', st), st))
+                            for nm in names:
+                                if nm:
+                                    fr.locals[nm] = _placeholder(f'unpacked {nm}')
+                            st.items.append(Item(None, True, Eff('set', norm(sub(t)), v, '', s_), s_))
                     else:
                         c = attr_chain(t)
-                        items.append(Item(None, True, Eff('set', c or norm(sub(t)), v, '', st), st))
+                        st.items.append(Item(None, True, Eff('set', c or norm(sub(t)), v, '', s_), s_))
                         if c is not None:
-                            for k in [k for k in defs if k.startswith(c + '.')]:
-                                del defs[k]
-                            defs[c] = v if _inlinable(v) else ast.Name(id=f'<{c} after assignment>', ctx=ast.Load())
-                            written.add(c)
-                elif isinstance(st, ast.AnnAssign) and st.value is not None:
-                    v = sub(st.value)
-                    exprs.append((st, v))
-                    if isinstance(st.target, ast.Name):
-                        if _inlinable(v):
-                            defs[st.target.id] = v
-                        else:
-                            defs.pop(st.target.id, None)
-                        items.append(Item(None, True, Eff('set', st.target.id, v, '', st), st))
+                            for k_ in [k_ for k_ in st.fields if k_.startswith(c + '.')]:
+                                del st.fields[k_]
+                            st.fields[c] = v if _inlinable(v) else _placeholder(f'{c} after assignment')
+                            st.written.add(c)
+                elif isinstance(s_, ast.AnnAssign) and s_.value is not None:
+                    v = sub(s_.value)
+                    st.exprs.append((s_, v))
+                    if isinstance(s_.target, ast.Name):
+                        setlocal(s_.target.id, v)
+                        st.items.append(Item(None, True, Eff('set', s_.target.id, v, '', s_), s_))
                     else:
-                        items.append(Item(None, True, Eff('set', norm(sub(st.target)), v, '', st), st))
-                elif isinstance(st, ast.AugAssign):
-                    v = sub(st.value)
-                    exprs.append((st, v))
-                    if isinstance(st.target, ast.Name):
-                        cur = sub(ast.Name(id=st.target.id, ctx=ast.Load()))
-                        nv = ast.BinOp(left=cur, op=st.op, right=v)
-                        if _inlinable(nv):
-                            defs[st.target.id] = nv
-                        else:
-                            defs[st.target.id] = ast.Name(id=f'<{st.target.id} after {type(st.op).__name__}>', ctx=ast.Load())
-                        items.append(Item(None, True, Eff('aug', params.get(st.target.id, st.target.id), v, type(st.op).__name__, st), st))
-                    else:
-                        c = attr_chain(st.target)
-                        items.append(Item(None, True, Eff('aug', c or norm(sub(st.target)), v, type(st.op).__name__, st), st))
+                        c = attr_chain(s_.target)
+                        st.items.append(Item(None, True, Eff('set', c or norm(sub(s_.target)), v, '', s_), s_))
                         if c is not None:
-                            cur = sub(ast.Attribute(value=st.target.value, attr=st.target.attr, ctx=ast.Load()))   # type: ignore[attr-defined]
-                            nv = ast.BinOp(left=cur, op=st.op, right=v)
-                            defs[c] = nv if _inlinable(nv) else ast.Name(id=f'<{c} after assignment>', ctx=ast.Load())
-                            written.add(c)
-                elif isinstance(st, ast.Expr):
-                    val = st.value
+                            st.fields[c] = v if _inlinable(v) else _placeholder(f'{c} after assignment')
+                            st.written.add(c)
+                elif isinstance(s_, ast.AugAssign):
+                    v = sub(s_.value)
+                    st.exprs.append((s_, v))
+                    if isinstance(s_.target, ast.Name):
+                        cur = sub(ast.Name(id=s_.target.id, ctx=ast.Load()))
+                        setlocal(s_.target.id, ast.BinOp(left=cur, op=s_.op, right=v))
+                        st.items.append(Item(None, True, Eff('aug', fr.params.get(s_.target.id, s_.target.id), v, type(s_.op).__name__, s_), s_))
+                    else:
+                        c = attr_chain(s_.target)
+                        st.items.append(Item(None, True, Eff('aug', c or norm(sub(s_.target)), v, type(s_.op).__name__, s_), s_))
+                        if c is not None:
+                            cur = sub(ast.Attribute(value=s_.target.value, attr=s_.target.attr, ctx=ast.Load()))   # type: ignore[attr-defined]
+                            nv = ast.BinOp(left=cur, op=s_.op, right=v)
+                            st.fields[c] = nv if _inlinable(nv) else _placeholder(f'{c} after assignment')
+                            st.written.add(c)
+                elif isinstance(s_, ast.Expr):
+                    val = s_.value
+                    if isinstance(val, ast.Constant):
+                        continue
+                    is_yf = isinstance(val, ast.YieldFrom)
+                    hc = helper_call(val.value if is_yf else val, is_yf, fr.depth) if isinstance(val, (ast.YieldFrom, ast.Call)) else None
+                    if hc is not None:
+                        callee, bound = hc
+                        if id(callee) not in hpaths:
+                            hpaths[id(callee)] = enumerate_paths(callee.body, unroll=1, handlers=handlers)
+                        args = {pn: sub(x) for pn, x in bound.items()}
+                        rest_events, rest_i, caller = events, i, fr
+                        for hp in hpaths[id(callee)]:
+                            if hp.outcome == 'raise':
+                                raise Undecided(f'{name}: helper {callee.name} can raise explicitly')
+                            st2 = st.copy()
+                            hfr = _Frame({pn: (x if _inlinable(x) else _placeholder(pn)) for pn, x in args.items()}, {}, fr.depth + 1)
+                            cfr = _Frame(dict(caller.locals), caller.params, caller.depth)
+                            proc(hp.events, 0, st2, hfr, lambda s3, _f, cfr=cfr: proc(rest_events, rest_i, s3, cfr, done))
+                        return
                     if isinstance(val, ast.Yield):
                         v = sub(val.value) if val.value is not None else ast.Constant(value=None)
-                        items.append(Item(None, True, Eff('yield', '', v, '', st), st))
-                        exprs.append((st, v))
-                    elif isinstance(val, ast.YieldFrom):
+                        st.items.append(Item(None, True, Eff('yield', '', v, '', s_), s_))
+                    elif is_yf:
                         v = sub(val.value)
-                        items.append(Item(None, True, Eff('yieldfrom', '', v, '', st), st))
-                        exprs.append((st, v))
-                    elif isinstance(val, ast.Constant):
-                        pass
+                        st.items.append(Item(None, True, Eff('yieldfrom', '', v, '', s_), s_))
                     else:
                         v = sub(val)
-                        items.append(Item(None, True, Eff('call', '', v, '', st), st))
-                        exprs.append((st, v))
-                elif isinstance(st, (ast.Return, ast.Raise)):
-                    x = st.value if isinstance(st, ast.Return) else st.exc
+                        st.items.append(Item(None, True, Eff('call', '', v, '', s_), s_))
+                    st.exprs.append((s_, v))
+                elif isinstance(s_, (ast.Return, ast.Raise)):
+                    x = s_.value if isinstance(s_, ast.Return) else s_.exc
                     if x is not None:
-                        exprs.append((st, sub(x)))
-                elif isinstance(st, (ast.Pass, ast.Import, ast.ImportFrom, ast.Global, ast.Nonlocal)):
+                        st.exprs.append((s_, sub(x)))
+                elif isinstance(s_, (ast.Pass, ast.Import, ast.ImportFrom, ast.Global, ast.Nonlocal)):
                     pass
-                elif isinstance(st, (ast.FunctionDef, ast.AsyncFunctionDef, ast.ClassDef)):
-                    defs.pop(st.name, None)
-                elif isinstance(st, ast.Delete):
-                    for t in st.targets:
+                elif isinstance(s_, (ast.FunctionDef, ast.AsyncFunctionDef, ast.ClassDef)):
+                    fr.locals.pop(s_.name, None)
+                elif isinstance(s_, ast.Delete):
+                    for t in s_.targets:
                         if isinstance(t, ast.Name):
-                            defs.pop(t.id, None)
+                            fr.locals.pop(t.id, None)
                 else:
-                    raise Undecided(f'{name}: statement outside the tabulated subset: `{short(st, 60)}`')
+                    raise Undecided(f'{name}: statement outside the tabulated subset: `{short(s_, 60)}`')
             elif ev.kind in ('iter', 'with'):
                 for n in ast.walk(node):
                     if isinstance(n, ast.Name) and isinstance(n.ctx, ast.Store):
-                        defs[n.id] = ast.Name(id=f'<{n.id} bound by a loop>', ctx=ast.Load())
-                items.append(Item(None, True, Eff('loop' if ev.kind == 'iter' else 'with', '', None, str(ev.val), node), node))
-        if not feasible:
-            continue
-        oc = tables.default_outcome(p, sub)
-        r = Row(conds, oc, tuple(repr(i.eff) for i in items if i.eff is not None), p)
-        r.items = items
-        r.ints = ints
-        r.exprs = exprs
-        r.final = {c: defs[c] for c in written if c in defs}
-        rows.append(r)
-        if p.outcome == 'fall':
-            if exit_vals is None:
-                exit_vals = dict(defs)
-            else:   # keep the definitions every normally-completing row agrees on
-                exit_vals = {k: v for k, v in exit_vals.items() if k in defs and norm(defs[k]) == norm(v)}
-    return tables.Table(rows, name), (exit_vals or {})
+                        fr.locals[n.id] = _placeholder(f'{n.id} bound by a loop')
+                st.items.append(Item(None, True, Eff('loop' if ev.kind == 'iter' else 'with', '', None, str(ev.val), node), node))
+        done(st, fr)
+
+    for p in enumerate_paths(body, unroll=1, handlers=handlers):
+        def finish(st: _State, fr: _Frame, p: T.Any = p) -> None:
+            def sub(e: ast.AST) -> ast.AST:
+                return _Sub({**st.fields, **fr.locals}, fr.params).visit(copy.deepcopy(e))
+            r = Row(st.conds, tables.default_outcome(p, sub), tuple(repr(i.eff) for i in st.items if i.eff is not None), p)
+            r.items, r.ints, r.exprs = st.items, st.ints, st.exprs
+            r.final = {c: st.fields[c] for c in st.written if c in st.fields}
+            rows.append(r)
+            if p.outcome == 'fall':
+                defs = {**st.fields, **fr.locals}
+                if exit_box[0] is None:
+                    exit_box[0] = dict(defs)
+                else:   # keep the definitions every normally-completing row agrees on
+                    exit_box[0] = {k: v for k, v in exit_box[0].items() if k in defs and norm(defs[k]) == norm(v)}
+        st0 = _State()
+        seed_ = dict(seed or {})
+        st0.fields = {k: v for k, v in seed_.items() if '.' in k}
+        proc(p.events, 0, st0, _Frame({k: v for k, v in seed_.items() if '.' not in k}, param_names(fn), 0), finish)
+    return tables.Table(rows, name), (exit_box[0] or {})
 
 
 def expr_of(text: str) -> ast.AST:
